@@ -137,6 +137,11 @@ func Native() bool { return true }
 func Twin() bool   { return false }
 func Yield()       {}
 
+// Try / Kill: natively a kill is staged by the harness itself (a command that blocks for
+// good in an abandoned invocation); Kill is never called.
+func Try(f func()) bool { f(); return false }
+func Kill()             {}
+
 func Emit(kind, id string, val int) {
 	mu.Lock()
 	events = append(events, Event{Kind: kind, ID: id, Val: val})
